@@ -389,6 +389,22 @@ func ruleAllocSources(c *Ctx, rule string) {
 					c.OK(rule, fname(fn), label, w.instrPos(in), "from "+call.Call.StaticCallee().Name())
 					continue
 				}
+				// parameter of an unexported helper: every caller must pass an allowed allocation
+				if p, isP := root.(*ssa.Parameter); isP && p.Parent().Object() != nil && !p.Parent().Object().Exported() {
+					sites := w.callsTo(p.Parent())
+					okAll := len(sites) > 0
+					for _, cs := range sites {
+						ar := w.allocRoot(cs.Common().Args[paramIndex(p)])
+						ac, _ := callOf(ar)
+						if ac == nil || !allowed[ac.Call.StaticCallee()] {
+							okAll = false
+						}
+					}
+					if okAll {
+						c.OK(rule, fname(fn), label, w.instrPos(in), fmt.Sprintf("helper parameter: all %d callers pass an allocation from a keyed lookup", len(sites)))
+						continue
+					}
+				}
 				if isNilConst(root) {
 					continue
 				}
